@@ -5,6 +5,7 @@ import (
 	"encoding/json"
 	"fmt"
 	"net"
+	"strings"
 	"sync/atomic"
 	"testing"
 	"time"
@@ -198,7 +199,18 @@ func runC20Cluster(c *C20ClusterCase) error {
 				time.Sleep(50 * time.Millisecond)
 				continue
 			}
+			// the same for a subquery's own cluster query (reported as an error)
+			if b.err != nil && strings.Contains(b.err.Error(), "missing partitions") {
+				time.Sleep(50 * time.Millisecond)
+				continue
+			}
 			break
+		}
+		if b.err != nil && strings.Contains(b.err.Error(), "missing partitions") {
+			return fmt.Errorf("%w: RPC handlers missing during a subquery: %v", h.ErrInconclusive, b.err)
+		}
+		if a.err != nil && strings.Contains(a.err.Error(), "missing partitions") {
+			return fmt.Errorf("%w: in-process handlers missing during a subquery: %v", h.ErrInconclusive, a.err)
 		}
 		if b.err == nil && b.res.Stats != nil && len(b.res.Stats.MissingPartitions) > 0 {
 			return fmt.Errorf("%w: RPC handlers missing: %+v", h.ErrInconclusive, b.res.Stats)
